@@ -93,6 +93,40 @@ def run(ctx: Ctx) -> None:
                 else:
                     ctx.finding("X1", f"{q} | raise {name}", repo.loc(mod, n), f"raises {name}, which is not a Lark error and not one of the errors C15/C20 prescribe")
 
+    # ---- X5 --------------------------------------------------------------------------------------
+    ctx.rule("X5", "the token loop does a bounded amount of work per token: inside the loop over iter_parse() no method of the interactive parser is called (copy / accepts / choices / feed_token walk or duplicate the whole parser stack, which makes loads quadratic), directly or through a helper the parser object is handed to", 1)
+    pfn = repo.func("parser.Parser.parse")
+    loops = []
+    for q in sorted(direct):
+        f_ = repo.func(q)
+        for n in ast.walk(f_):
+            if isinstance(n, ast.For) and isinstance(n.iter, ast.Call) and isinstance(n.iter.func, ast.Attribute) and n.iter.func.attr == "iter_parse" and isinstance(n.iter.func.value, ast.Name):
+                loops.append((q, f_, n, n.iter.func.value.id))
+    if not loops:
+        raise AnalysisError("anchor vanished: the loop over iter_parse() on the load path")
+    for q, f_, loop, ipname in loops:
+        offenders: list = []
+
+        def scan(body_nodes, name, owner_q, owner_fn, depth=0):
+            for st in body_nodes:
+                for c in ast.walk(st):
+                    if not isinstance(c, ast.Call):
+                        continue
+                    if isinstance(c.func, ast.Attribute) and isinstance(c.func.value, ast.Name) and c.func.value.id == name:
+                        offenders.append(f"{owner_q}: {norm(c)[:60]}")
+                    # the parser object handed to a repository function: look inside
+                    if depth < 3 and any(isinstance(a, ast.Name) and a.id == name for a in c.args):
+                        cs = next((x for x in facts.calls.get(owner_q, []) if x.node is c), None)
+                        if cs is not None and cs.target:
+                            tf = repo.func(cs.target)
+                            b_ = bind_args_safe(c, tf, cs.target)
+                            for pn, a in b_.items():
+                                if isinstance(a, ast.Name) and a.id == name:
+                                    scan(tf.body, pn, cs.target, tf, depth + 1)
+
+        scan(loop.body, ipname, q, f_)
+        ctx.check(not offenders, "X5", f"{q}: per-token work", repo.loc(q.split(".")[0], loop), "no parser-state method inside the loop", f"inside the token loop the interactive parser is used through {offenders}: each such call walks or copies the whole value stack, so parse time grows with the square of the input length")
+
     # ---- X2 --------------------------------------------------------------------------------------
     ctx.rule("X2", "abstract evaluation of Parser.parse's token loop and of _get_include_filename over all token / line shape classes yields only returns or Lark-family exceptions", 30)
     sym_attrs = sorted(repo.const("parser", "SYMBOL_ATTRIBUTES"))
@@ -220,6 +254,15 @@ def _assert_on_defaults(facts, direct, q: str, fn: ast.FunctionDef, node: ast.As
         return bool(eval(compile(ast.Expression(node.test), "<assert>", "eval"), {"__builtins__": {}}, env))
     except Exception:
         return False
+
+
+def bind_args_safe(call: ast.Call, fn: ast.FunctionDef, qual: str) -> dict:
+    from ..pyfacts import bind_args
+
+    try:
+        return bind_args(call, fn, skip_self=qual.count(".") == 2)
+    except Exception:
+        return {}
 
 
 def _pops_own_key(fn: ast.FunctionDef, call: ast.Call) -> bool:
